@@ -155,6 +155,15 @@ func (e *enc) evalRaw(x SExpr, env *Env) SVal {
 		if !n.forall {
 			q = "exists"
 		}
+		if n.forall {
+			var qs []string
+			for _, v := range n.vars {
+				qs = append(qs, "q_"+v)
+			}
+			if pat := quantPattern(body.t, qs); pat != "" {
+				return SVal{t: fmt.Sprintf("(forall (%s) (! %s :pattern (%s)))", strings.Join(decls, " "), body.t, pat), sort: "Bool"}
+			}
+		}
 		return SVal{t: fmt.Sprintf("(%s (%s) %s)", q, strings.Join(decls, " "), body.t), sort: "Bool"}
 	case *SSel:
 		// package-qualified constant?
@@ -407,16 +416,16 @@ func (e *enc) selectField(v SVal, name string, env *Env) SVal {
 			if isStructType(f.Type()) {
 				cur = SVal{addr: fa, typ: f.Type(), sort: sortOf(f.Type())}
 			} else {
-				cur = SVal{t: e.loadValue(env.st, fa, f.Type()), typ: f.Type(), sort: sortOf(f.Type())}
+				cur = SVal{t: e.specLoad(env.st, fa, f.Type()), typ: f.Type(), sort: sortOf(f.Type())}
 			}
 			continue
 		}
 		if _, ptr := cur.typ.Underlying().(*types.Pointer); ptr {
 			addr := e.mkFld(cur.t, fieldID(f))
-			cur = SVal{t: e.loadValue(env.st, addr, f.Type()), typ: f.Type(), sort: sortOf(f.Type())}
+			cur = SVal{t: e.specLoad(env.st, addr, f.Type()), typ: f.Type(), sort: sortOf(f.Type())}
 		} else {
 			si := structSort(cur.typ)
-			cur = SVal{t: fmt.Sprintf("(%s %s)", si.fields[idx], cur.t), typ: f.Type(), sort: sortOf(f.Type())}
+			cur = SVal{t: projField(si, idx, cur.t), typ: f.Type(), sort: sortOf(f.Type())}
 		}
 	}
 	_ = isPtr
@@ -644,6 +653,17 @@ func (e *enc) evalCall(n *SCall, env *Env) SVal {
 		return SVal{t: fmt.Sprintf("(sarr %s)", arg(0).t), sort: "Ref"}
 	case "off":
 		return SVal{t: fmt.Sprintf("(soff %s)", arg(0).t), sort: "Int"}
+	case "isvar":
+		// isvar(p): p points to a whole variable (not to a field of a struct nor to an array element)
+		return SVal{t: fmt.Sprintf("((_ is alloc) %s)", arg(0).t), sort: "Bool"}
+	case "object":
+		// object(p): the identity of the allocated object a pointer (or a slice's backing array) lies in;
+		// two references into different objects never alias
+		a := arg(0)
+		if a.sort == "Slice" {
+			return SVal{t: fmt.Sprintf("(root (sarr %s))", a.t), sort: "Int"}
+		}
+		return SVal{t: fmt.Sprintf("(root %s)", a.t), sort: "Int"}
 	case "stored", "updated", "content", "size":
 		// abstract store theory: ghost state of a storage.Store value, per key
 		s, k := arg(0), arg(1)
@@ -1021,4 +1041,50 @@ func findIndexedSlice(x SExpr, v string, bound []string) SExpr {
 	}
 	walk(x)
 	return res
+}
+
+// projField applies a struct accessor to a term; applied to a literal constructor (mk_S a b c) it returns the
+// field term itself (keeps quantified specifications and loads small).
+func projField(si *structInfo, i int, term string) string {
+	pre := "(mk_" + si.sort + " "
+	if strings.HasPrefix(term, pre) && strings.HasSuffix(term, ")") {
+		body := term[len(pre) : len(term)-1]
+		var parts []string
+		d, start := 0, 0
+		for k := 0; k < len(body); k++ {
+			switch body[k] {
+			case '(':
+				d++
+			case ')':
+				d--
+			case ' ':
+				if d == 0 {
+					parts = append(parts, body[start:k])
+					start = k + 1
+				}
+			}
+		}
+		parts = append(parts, body[start:])
+		if len(parts) == len(si.fields) && d == 0 {
+			return parts[i]
+		}
+	}
+	return fmt.Sprintf("(%s %s)", si.fields[i], term)
+}
+
+// specLoad: a memory read made by a specification. Like a read made by the code it comes with the type's
+// range facts (a slice header is well formed, an integer is in range) - old(len(s)) >= 0 must not need
+// the code to have read s. Only for ground addresses (no bound variable), and only scalars / slices.
+func (e *enc) specLoad(st *State, addr string, t types.Type) string {
+	v := e.loadValue(st, addr, t)
+	if strings.Contains(v, "q_") {
+		return v
+	}
+	switch t.Underlying().(type) {
+	case *types.Basic, *types.Slice:
+		for _, f := range e.facts(v, t, false) {
+			e.assertOnce(f)
+		}
+	}
+	return v
 }
